@@ -7,13 +7,13 @@ from . import core
 from .sandbox import CapturePrinter
 
 
-def new_path(policy=None, delimiter=",", quotechar='"', printer=True, csvpaths=None):
+def new_path(policy=None, delimiter=",", quotechar='"', printer=True, csvpaths=None, skip_blank_lines=True):
     from csvpath import CsvPath
 
     if csvpaths is not None:
         p = csvpaths.csvpath()
     else:
-        p = CsvPath(delimiter=delimiter, quotechar=quotechar)
+        p = CsvPath(delimiter=delimiter, quotechar=quotechar, skip_blank_lines=skip_blank_lines)
     if policy is not None:
         # the second documented route (what the repo's tests do); the primary route is
         # the sandbox config.ini (Sandbox.write_config) which must be written first
@@ -50,13 +50,13 @@ def state_of(p, cp=None, stdout=None):
 
 
 def run_path(text, method="collect", policy=None, delimiter=",", quotechar='"',
-             nexts=None, want_stdout=False, csvpaths=None, pre=None, printer=True):
+             nexts=None, want_stdout=False, csvpaths=None, pre=None, printer=True, skip_blank_lines=True):
     """Parse + run `text` on a fresh CsvPath.  Returns dict with 'lines' (or None),
     'raised' (json or None) and the state tuple."""
     buf = io.StringIO()
     with warnings.catch_warnings(), contextlib.redirect_stdout(buf):
         p, cp = new_path(policy=policy, delimiter=delimiter, quotechar=quotechar,
-                         csvpaths=csvpaths, printer=printer)
+                         csvpaths=csvpaths, printer=printer, skip_blank_lines=skip_blank_lines)
         lines = None
         raised = None
         kept = []
@@ -185,7 +185,7 @@ def setup_group(sb, cps, pathsname, texts, filename, records, delimiter=",", quo
     return rel
 
 
-def run_next_with_snapshots(text, delimiter=",", quotechar='"'):
+def run_next_with_snapshots(text, delimiter=",", quotechar='"', skip_blank_lines=True):
     """iterate next() on a fresh CsvPath, recording the state tuple at every yield"""
     import copy
 
@@ -195,14 +195,14 @@ def run_next_with_snapshots(text, delimiter=",", quotechar='"'):
     kept = []
     raised = None
     with warnings.catch_warnings(), contextlib.redirect_stdout(buf):
-        p, cp = new_path(delimiter=delimiter, quotechar=quotechar)
+        p, cp = new_path(delimiter=delimiter, quotechar=quotechar, skip_blank_lines=skip_blank_lines)
         try:
             p.parse(text)
             for ln in p.next():
                 kept.append(ln)
                 lines.append(list(ln))
                 st = state_of(p, cp)
-                st = copy.deepcopy({k: v for k, v in st.items() if k != "stopped"})
+                st = copy.deepcopy(st)
                 snaps.append(st)
         except Exception as e:  # noqa: BLE001
             raised = core.Raised(e).to_json()
